@@ -67,3 +67,51 @@ def run_with_preemption(call_fn, clear_fn, point, wait=0.05, suffix="psutil/_com
     if a.is_alive() or b.is_alive():
         raise RuntimeError("pre-emption harness: a thread did not finish")
     return {"reached": st["reached"], "during": during, "call": res.get("call"), "clear": res.get("clear")}
+
+
+def run_with_injection(call_fn, point, exc, suffix="psutil/_common.py"):
+    """Raise [exc] at the [point]-th 'line' event inside run/_remove_dead_reminders/_add_dict of the call
+    (the line has not been executed yet: the exception stands for one raised by that line).
+    -> dict(reached=bool, func=str|None, lineno=int|None, call=<result of call_fn>)"""
+    st = {"n": 0, "reached": False, "func": None, "lineno": None}
+
+    def local(frame, event, arg):
+        if event == "line" and not st["reached"]:
+            if st["n"] == point:
+                st["reached"] = True
+                st["func"] = frame.f_code.co_name
+                st["lineno"] = frame.f_lineno
+                raise exc
+            st["n"] += 1
+        return local
+
+    def tracer(frame, event, arg):
+        co = frame.f_code
+        if event == "call" and co.co_name in FUNCS and co.co_filename.endswith(suffix):
+            return local
+        return None
+
+    old = sys.gettrace()
+    sys.settrace(tracer)
+    try:
+        res = call_fn()
+    finally:
+        sys.settrace(old)
+    return {"reached": st["reached"], "func": st["func"], "lineno": st["lineno"], "call": res}
+
+
+class FailingStream:
+    """stands for sys.stderr: the k-th write raises [exc] (once), the others are swallowed"""
+
+    def __init__(self, k, exc):
+        self.k, self.exc, self.n = k, exc, 0
+
+    def write(self, s):
+        i = self.n
+        self.n += 1
+        if i == self.k:
+            raise self.exc
+        return len(s)
+
+    def flush(self):
+        pass
